@@ -31,8 +31,8 @@ CLAIMED = {
             "5 (C08)", "refinement against the exact written packet sequence, per read", "Trusts go1.26.8 + runtime overlay and the simulated byte stream as a faithful io.ReadWriteCloser; writers run at driver steps (a frame is written by one Write call, so writer interleaving below frame granularity does not exist in the code). Sampling, not proof."),
  "C09": sim("Real rwc.Conn pairs over the simulated byte stream: chunked delivery, partial underlying writes, read buffers from 1 byte up, per-run queue depth, EOF/reset at arbitrary offsets, final data returned together with the terminal error; every Conn.Read is matched against the pump chunk it must correspond to (byte cursor model).",
             "5 (C09)", "byte-cursor reference model checked on every read + byte conservation at quiescence", "Same trusted base as C08."),
- "C31": sim("Part (a) of the property: the real solicited-stream value under 2-4 concurrent callers of Accept/Close/IsAccepted with the driver deciding every interleaving at the scheduling points before each mutex acquisition; linearizability against the sequential model {accepted, closed} with porcupine, plus the single-owner and never-close-an-accepted-stream invariants. Part (b) (several local solicitations matching one incoming stream inside the controller) is not simulated yet.",
-            "5 (C31)", "porcupine linearizability of the recorded history + invariants", "Trusts porcupine v1.3.0 and the hook placement; the controller-level clause is not covered (stated in DESIGN.md)."),
+ "C31": sim("Part (a) of the property: the real solicited-stream value under 2-4 concurrent callers of Accept/Close/IsAccepted with the driver deciding every interleaving at the scheduling points before each mutex acquisition; linearizability against the sequential model {accepted, closed} with porcupine, plus the single-owner and never-close-an-accepted-stream invariants. Part (b), in one run of three: the C30 world with several local solicitations (different constraints, or colliding classes) matching one incoming stream; each stream end may be accepted by at most one of them.",
+            "5 (C31)", "porcupine linearizability of the recorded history + invariants", "Trusts porcupine v1.3.0 and the hook placement."),
  "C33": sim("Real hold-open controller and handler against a fake directive instance with exact strong-reference accounting; value-added/removed callbacks for 1-3 links overlap across links (never reordered within one link) and the asynchronous reference acquisition lands at a driver-chosen later point; at quiescence a strong reference is held iff links exist.",
             "5 (C33)", "equivalence (refs>0 iff links>0) at quiescence", "Trusts the fake directive.Instance as a faithful stand-in for controllerbus reference counting; callbacks of one value are serialized as a real bus does."),
  "C39": sim("Real key-file loader against a scratch directory that the simulator puts into every state a crash during the non-atomic, non-fsynced write (any prefix, empty, missing) or an operator (garbage, other PEM types, directory, path below a file, symlink loop, dangling symlink, over-long name) can leave; sequences of loads and faults from the tape; every load must return a usable key or an error, and identities must be stable across reloads.",
@@ -50,6 +50,11 @@ CLAIMED = {
             "5 (C27)", "per-callback and per-forward membership in the harness-made honest pool"),
  "C28": sim("3-5 real FloodSub routers in a connected mesh drawn from the tape (line, star, ring, random); publishes from every node; link flaps under the same and under new link tuples, router crash and restart, chunked and stalled streams, clock jumps beyond the de-duplication window; no duplicate hand-over within the window, no message sent back to its publisher or to its only source (wire tap ordered by a global event sequence), and after the last fault one fresh message per node and channel is handed exactly once to every subscription reachable through subscribed routers. Router panics are violations.",
             "5 (C28)", "per-delivery counters + wire-tap ordering + exactly-once at reachable subscribers after stabilisation"),
+
+ "C29": sim("Two variants per run. links: two full nodes (bus, peer and transport controllers over simlinks, the real pubsub controller driving a real FloodSub) with link failure and re-establishment under the same or a new UUID; for every link pair exactly one side opens the pubsub stream (counted at the stub). subs: a real FloodSub with subscriptions and handlers added, removed and released while traffic for those channels is in flight and the delivery goroutines are parked; no handler runs after its remove function or Release returned, and the announcements seen by a scripted peer end with Subscribe=false exactly when no local subscription remains.",
+            "5 (C29)", "opener-count invariant per link + no-callback-after-release invariant + announcement equality at quiescence"),
+ "C30": sim("Two full nodes with the real solicitation controller over a simlink pair; SolicitProtocol directives from alphabets whose protocol||context concatenations collide, with peer and transport constraints, added over time on both sides; every accepted stream is identified by its simulator-owned stream pair, both ends must belong to solicitations with identical protocol and context whose constraints admit the link, and every identical admissible pair must end up matched (unless the driver stalled a stream header past the establish deadline).",
+            "5 (C30)", "pairwise identity check on both ends of every solicited stream + completeness at quiescence"),
 }
 
 NA_PURE = {
